@@ -309,21 +309,28 @@ def _parse_object(
         raise SchemaParseError.missing_title(schema)
     title = _title_format(title)
     properties = schema.get("properties", {})
-    properties.update(
-        {
-            _parse_attribute_name(key): _Property(
-                _undeclared_property_element(key, schema),
-                required=True,
-                source=key,
-            )
-            for key in schema.get("required", [])
-            if _parse_attribute_name(key) not in properties
-        }
-    )
+    undeclared = [
+        key
+        for key in schema.get("required", [])
+        if _parse_attribute_name(key) not in properties
+    ]
+    cls_args = dict(additionalProperties=schema["additionalProperties"])
+    if schema["additionalProperties"] is True:
+        properties.update(
+            {
+                _parse_attribute_name(key): _Property(
+                    Element(), required=True, source=key
+                )
+                for key in undeclared
+            }
+        )
+    elif undeclared:
+        # Declaring properties would exempt these keys from
+        # "additionalProperties".
+        cls_args["required"] = undeclared
     class_dict = ObjectClassDict()
     for key, value in properties.items():
         class_dict[key] = value
-    cls_args = dict(additionalProperties=schema["additionalProperties"])
     for key in [
         "patternProperties",
         "minProperties",
@@ -339,27 +346,6 @@ def _parse_object(
             cls_args[key] = schema[key]
     object_type = ObjectMeta(title, (Object,), class_dict, **cls_args)
     return state.dedupe(object_type)
-
-
-def _undeclared_property_element(key: str, schema: Dict[str, Any]) -> Element:
-    """Get the element governing a required key with no declared property.
-
-    Such a key is still subject to ``"additionalProperties"``, unless it
-    matches one of the ``"patternProperties"`` (which are applied to
-    declared properties separately).
-    """
-    if any(
-        re.search(pattern, key) for pattern in schema.get("patternProperties", {})
-    ):
-        return Element()
-    additional = schema["additionalProperties"]
-    if isinstance(additional, bool):
-        return Element() if additional else Nothing()
-    if not isinstance(additional.default, NotPassed):
-        # The default belongs to additional properties in general, and must
-        # not waive the requirement for this key.
-        return AllOf(additional)
-    return additional
 
 
 def _parse_properties(
